@@ -108,7 +108,7 @@ HDR = core.HDR.replace('Import Base Spec.', 'Import Base Spec Sem.')
 
 def run(tier, seed):
     t0 = time.time(); idx, info = flow.prepare()
-    files, notes, cover = f1.build(idx, CFGS, 'pan', spec, per_file=60)
+    files, notes, cover = f1.build(idx, CFGS, 'pan', spec, per_file=60, pid='C18')
     per_fn = 2 if tier == 'quick' else 20
     return f1.run('C18', tier, seed, idx, info, t0, files, notes, cover, HDR, per_fn,
         'one lemma per public function of the float/quaternion/matrix/affine types (x literal index / Euler order / slice length where the function takes one), sse2 + scalar-math + core-simd, for all Ops with Rust integer semantics: outcome Ok for all argument values; index and slice functions: Panic exactly outside the documented bound, exact first-N read/write otherwise; correspondence: %d random calls per function with special-value lattice arguments' % per_fn,
